@@ -200,6 +200,15 @@ impl PropCase for LongRun {
                 format!("{}", log_str(&log))
             );
         }
+        // the real encoders on the long payload (growable buffer, iterator encoder polled past its end)
+        if self.mode == "payload" {
+            let e = run_encode(BufKind::Vec, &q, false);
+            ensure!(e.is_ok(), "encode-long-payload", "Ok(frame)", "Err(OutOfMemory)");
+            let es = run_encode_streaming(&q, 0, 200);
+            ensure!(!es.hit_bound && es.late.is_empty(), "encode_streaming-long-payload", "iterator ends for good", format!("hit_bound={} late={}", es.hit_bound, es.late.len()));
+            let _ = run_encode(BufKind::Arr(70000), &q, true);
+            let _ = run_encode(BufKind::Arr(65536), &q, true);
+        }
         // pull front-ends on the same stream
         if self.n <= 1 << 18 {
             let _ = run_f2(&s, true);
@@ -254,6 +263,25 @@ impl PropCase for Misc {
             "None on each of 300 polls after the end",
             format!("yielded {:02x?}", es.late)
         );
+        // the iterator encoder over an unbounded source: size_hint() and a bounded prefix must not panic
+        {
+            let b = s.first().copied().unwrap_or(0x55);
+            let (_h, v) = encode_unbounded_prefix(b, 40);
+            let mut exp = crate::refm::transport::START.to_vec();
+            let mut run = 0;
+            while exp.len() < 40 {
+                exp.push(b);
+                if b == 0x1b {
+                    run += 1;
+                    if run == 4 {
+                        exp.extend_from_slice(&[0x1b; 4]);
+                        run = 0;
+                    }
+                }
+            }
+            exp.truncate(40);
+            ensure!(v == exp, "encode_streaming-unbounded-source", crate::hexu::hex(&exp), crate::hexu::hex(&v));
+        }
         // (iv) s as a stream through F2..F6, readers with read/next mixed and called past EOF
         let _ = run_f2(s, false);
         for b in [BufKind::Vec, BufKind::Arr(0), BufKind::Arr(3), BufKind::Arr(64)] {
